@@ -911,7 +911,10 @@ class BinaryDataEncoding(DataEncoding):
 
         if self.linear_adjuster is not None:
             len_bits = self.linear_adjuster(len_bits)
-        return len_bits
+        # Lengths that come from a DiscreteLookup or a calibrated parameter are floats
+        if not float(len_bits).is_integer():
+            raise ValueError(f"Binary field length must be an integer number of bits but got {len_bits}.")
+        return int(len_bits)
 
     def parse_value(self, packet: packets.CCSDSPacket) -> common.BinaryParameter:
         """Parse a value from packet data, possibly using previously parsed data items to inform parsing.
